@@ -4,6 +4,11 @@
 //!  guards:  with ANY kind of staged change (new content, deletion only, an update back to content that is already in a
 //!           committed pack — so that the data stage is empty while a revision tree is staged) reload(), refresh() and
 //!           reload_until(heads) must refuse (Err) and leave has_staging / stage() / winners untouched.
+//!           Also reload_until(empty set) and a stage holding a deletion plus a reverted value (no object content at all).
+//!  create-remove: create_object(new) + remove_object(new) before any commit of it + unstage(): stage() None, has_staging()
+//!           false, reload() / refresh() Ok, commit writes nothing, a later deletion-only commit writes no pack.
+//!  resolution: an object conflict resolved with resolve_as (winner / other leaf), export = stage(), unstage() restores the
+//!           conflict, replay_stage(export) restores the resolved state (in_conflict, winners, value), commit, propagation.
 //!  replay:  objects with chains of staged revisions; export = stage(); unstage() restores the committed state exactly;
 //!           replay_stage(export) succeeds and restores exactly the staged state (stage() equal as sets, same winners).
 use crate::Report;
@@ -54,17 +59,27 @@ fn guard_case(kind: &str) -> Result<(), String> {
             "delete-only" => { m.delete_object("y").map_err(|e| e.to_string())?; }
             "revert-to-committed-content" => { m.update_object("x", obj(json!({"v": 1}))).map_err(|e| e.to_string())?; }
             "create-empty-object" => { m.update_object("z", obj(json!({}))).map_err(|e| e.to_string())?; }
+            // no new object content at all: the data stage is empty, only revision trees are staged
+            "delete-and-revert" => {
+                m.delete_object("y").map_err(|e| e.to_string())?;
+                m.update_object("x", obj(json!({"v": 1}))).map_err(|e| e.to_string())?;
+            }
             _ => return Err("unknown kind".into()),
         }
         if !m.has_staging() { return Err("setup: nothing staged".into()); }
+        if matches!(k.as_str(), "delete-only" | "revert-to-committed-content" | "delete-and-revert") {
+            let st = m.stage().map_err(|e| e.to_string())?;
+            if st.as_ref().and_then(|v| v.get("o")).is_some() { return Err(format!("setup: the stage holds object content: {:?}", st)); }
+        }
         let st0 = norm_stage(&m.stage().map_err(|e| e.to_string())?);
         let w0 = winners(&m);
         let heads = m.get_anchors();
-        for which in ["reload", "refresh", "reload_until(heads)", "reload_until(old heads)"] {
+        for which in ["reload", "refresh", "reload_until(heads)", "reload_until(empty)", "reload_until(old heads)"] {
             let res = match which {
                 "reload" => m.reload(),
                 "refresh" => m.refresh(),
                 "reload_until(heads)" => m.reload_until(&heads),
+                "reload_until(empty)" => m.reload_until(&std::collections::BTreeSet::new()),
                 _ => m.reload_until(&heads1),
             };
             if res.is_ok() {
@@ -117,22 +132,117 @@ fn replay_case(nobj: usize, chain: usize, round: usize) -> Result<(), String> {
     match r { Ok(x) => x, Err(p) => Err(format!("panic: {}", p)) }
 }
 
+/// (a) an object created and removed again before it was ever committed, then unstage(): nothing is left behind
+fn create_remove_case(with_history: bool) -> Result<(), String> {
+    let r = super::guarded(move || -> Result<(), String> {
+        let (mut m, a) = new_replica()?;
+        if with_history {
+            m.update_object("x", obj(json!({"v": 1}))).map_err(|e| e.to_string())?;
+            m.update_object("y", obj(json!({"v": "y"}))).map_err(|e| e.to_string())?;
+            m.commit(None).map_err(|e| e.to_string())?.ok_or("no commit")?;
+        }
+        let w0 = winners(&m);
+        m.create_object("new", obj(json!({"fresh": [1, 2, 3]}))).map_err(|e| e.to_string())?;
+        m.remove_object("new").map_err(|e| e.to_string())?;
+        m.unstage().map_err(|e| e.to_string())?;
+        if m.has_staging() { return Err("has_staging() is true after create_object + remove_object + unstage".into()); }
+        let st = m.stage().map_err(|e| e.to_string())?;
+        if st.is_some() { return Err(format!("stage() after create_object + remove_object + unstage is {:?}", st)); }
+        if winners(&m) != w0 { return Err(format!("objects changed: {:?} vs {:?}", winners(&m), w0)); }
+        m.reload().map_err(|e| format!("reload() after create_object + remove_object + unstage is Err({})", e))?;
+        if winners(&m) != w0 { return Err("reload() changed the objects".into()); }
+        m.refresh().map_err(|e| format!("refresh() is Err({})", e))?;
+        if m.commit(None).map_err(|e| e.to_string())?.is_some() { return Err("commit with nothing staged wrote a block".into()); }
+        if with_history {
+            // a later deletion-only commit writes no pack
+            let packs_before = a.read().unwrap().list_objects(".pack").map_err(|e| e.to_string())?.len();
+            m.delete_object("y").map_err(|e| e.to_string())?;
+            let heads = m.commit(None).map_err(|e| e.to_string())?.ok_or("deletion-only commit returned None")?;
+            let d = m.get_delta(heads.iter().next().ok_or("no head")?).map_err(|e| e.to_string())?.ok_or("no delta")?;
+            if d.packs.as_ref().map(|p| !p.is_empty()).unwrap_or(false) { return Err(format!("the deletion-only block lists packs {:?} (content of the removed object leaked into a pack)", d.packs)); }
+            let packs_after = a.read().unwrap().list_objects(".pack").map_err(|e| e.to_string())?.len();
+            if packs_after != packs_before { return Err(format!("the deletion-only commit wrote a pack ({} -> {} packs)", packs_before, packs_after)); }
+        }
+        Ok(())
+    });
+    match r { Ok(x) => x, Err(p) => Err(format!("panic: {}", p)) }
+}
+
+/// (b) export / discard / replay of a staged CONFLICT RESOLUTION
+fn resolution_case(choose_winner: bool) -> Result<(), String> {
+    let r = super::guarded(move || -> Result<(), String> {
+        let (mut a, _aa) = new_replica()?;
+        let (mut b, _ab) = new_replica()?;
+        a.update_object("x", obj(json!({"v": 0}))).map_err(|e| e.to_string())?;
+        a.update_object("y", obj(json!({"v": "y"}))).map_err(|e| e.to_string())?;
+        a.commit(None).map_err(|e| e.to_string())?.ok_or("no commit")?;
+        b.meld(&a).map_err(|e| e.to_string())?;
+        b.refresh().map_err(|e| e.to_string())?;
+        a.update_object("x", obj(json!({"v": "A"}))).map_err(|e| e.to_string())?;
+        a.commit(None).map_err(|e| e.to_string())?.ok_or("no commit A")?;
+        b.update_object("x", obj(json!({"v": "B"}))).map_err(|e| e.to_string())?;
+        b.commit(None).map_err(|e| e.to_string())?.ok_or("no commit B")?;
+        a.meld(&b).map_err(|e| e.to_string())?;
+        a.refresh().map_err(|e| e.to_string())?;
+        if !a.in_conflict().contains("x") { return Err("setup: x is not in conflict".into()); }
+        let view = |m: &Melda| -> Result<(std::collections::BTreeSet<String>, BTreeMap<String, String>, Value, Value), String> {
+            Ok((m.in_conflict(), winners(m), Value::Object(m.get_value("x", None).map_err(|e| e.to_string())?), json!(m.get_conflicting("x").map_err(|e| e.to_string())?)))
+        };
+        let committed = view(&a)?;
+        let w = a.get_winner("x").map_err(|e| e.to_string())?;
+        let l = if choose_winner { w } else { a.get_conflicting("x").map_err(|e| e.to_string())?.into_iter().next().ok_or("no other leaf")? };
+        a.resolve_as("x", &l).map_err(|e| format!("resolve_as: {}", e))?;
+        if a.in_conflict().contains("x") { return Err("x still in conflict after resolve_as".into()); }
+        let staged = view(&a)?;
+        let export = a.stage().map_err(|e| e.to_string())?;
+        if export.is_none() { return Err("stage() is None after resolve_as".into()); }
+        let st0 = norm_stage(&export);
+        a.unstage().map_err(|e| e.to_string())?;
+        if a.has_staging() { return Err("has_staging() is true after unstage()".into()); }
+        if view(&a)? != committed { return Err(format!("unstage() did not restore the committed (conflicting) state: {:?} vs {:?}", view(&a)?, committed)); }
+        a.replay_stage(&export).map_err(|e| format!("replay_stage of the exported resolution failed: {}", e))?;
+        if view(&a)? != staged { return Err(format!("replay did not restore the staged resolution: {:?} vs {:?}", view(&a)?, staged)); }
+        if norm_stage(&a.stage().map_err(|e| e.to_string())?) != st0 { return Err("stage() after export/unstage/replay differs from the original export".into()); }
+        a.commit(None).map_err(|e| e.to_string())?.ok_or("commit of the replayed resolution returned None")?;
+        if view(&a)? != staged { return Err("the committed replayed resolution differs from the staged one".into()); }
+        b.meld(&a).map_err(|e| e.to_string())?;
+        b.refresh().map_err(|e| e.to_string())?;
+        if view(&b)? != staged { return Err(format!("the other replica does not see the replayed resolution: {:?} vs {:?}", view(&b)?, staged)); }
+        Ok(())
+    });
+    match r { Ok(x) => x, Err(p) => Err(format!("panic: {}", p)) }
+}
+
 pub fn run(thorough: bool, _seed: u64) -> Report {
     let rounds = if thorough { 40 } else { 6 };
     let mut rep = Report::new(
         "stage_api",
-        &format!("guards: 4 kinds of staged change x {{reload, refresh, reload_until(heads), reload_until(old heads)}}; replay: {} rounds x {{4, 12, 24 objects}} x chains of 1..3 staged revisions per object (independently seeded hash maps each round)", rounds),
+        &format!("guards: 5 kinds of staged change (3 of them without any new object content) x {{reload, refresh, reload_until(heads), reload_until(empty set), reload_until(old heads)}}; create-remove: create_object + remove_object + unstage on a fresh replica and on one with history (then a deletion-only commit must write no pack); resolution: export / unstage / replay_stage of a staged resolve_as (winner and other leaf), then commit and propagation; replay: {} rounds x {{4, 12, 24 objects}} x chains of 1..4 staged revisions per object (independently seeded hash maps each round)", rounds),
         "fixed scenario list; replay rounds differ only in hash-map seeds (export order); non-trivial = chain length >= 2",
     );
-    for k in ["new-content", "delete-only", "revert-to-committed-content", "create-empty-object"] {
+    for k in ["new-content", "delete-only", "revert-to-committed-content", "create-empty-object", "delete-and-revert"] {
         rep.case(&format!("guard:{}", k), true);
         if let Err(w) = guard_case(k) {
             rep.fail(&format!("guard:{}", k), json!({"kind": "guard", "staged": k}), &w);
         }
     }
+    for h in [false, true] {
+        let key = format!("create-remove:{}", if h { "with-history" } else { "fresh" });
+        rep.case(&key, true);
+        if let Err(w) = create_remove_case(h) {
+            rep.fail(&key, json!({"kind": "create-remove", "with_history": h}), &w);
+        }
+    }
+    for cw in [true, false] {
+        let key = format!("resolution:choose={}", if cw { "winner" } else { "other" });
+        rep.case(&key, true);
+        if let Err(w) = resolution_case(cw) {
+            rep.fail(&key, json!({"kind": "resolution", "choose_winner": cw}), &w);
+        }
+    }
     for round in 0..rounds {
         for nobj in [4usize, 12, 24] {
-            for chain in 1..=3usize {
+            for chain in 1..=4usize {
                 let key = format!("replay:n{}:c{}:r{}", nobj, chain, round);
                 rep.case(&key, chain >= 2);
                 if let Err(w) = replay_case(nobj, chain, round) {
@@ -148,6 +258,10 @@ pub fn replay(case: &Value) -> Value {
     let i = &case["input"];
     let r = if i["kind"] == "guard" {
         guard_case(i["staged"].as_str().unwrap_or(""))
+    } else if i["kind"] == "create-remove" {
+        create_remove_case(i["with_history"].as_bool().unwrap_or(true))
+    } else if i["kind"] == "resolution" {
+        resolution_case(i["choose_winner"].as_bool().unwrap_or(true))
     } else {
         // hash order is not reproducible: try a few rounds
         let mut last = Ok(());
